@@ -34,6 +34,7 @@ type scheduler struct {
 	symbolic bool        // symbolic scheduling at yield points
 	preempt  int         // remaining preemptive switches
 	mapOrder int         // remaining map range statements whose start is a symbolic choice
+	lockPoints bool      // Lock/RLock calls of /repo code are scheduling points
 	switches int
 }
 
